@@ -564,7 +564,10 @@ def check_property(pid, tier, seed, replay_only=None):
         strong = set(n.split('::')[-1] for n, sp in specs.items() if not getattr(sp, 'assumed', None))
         # iterator adaptors are consumed by the rewrite rules R1/R2/R7/R14 themselves (they become loop bounds), not called
         adaptors = set(['iter', 'iter_mut', 'take', 'skip', 'enumerate', 'rev', 'zip', 'len'])
-        newcal = set(c for c in (set(ccal or []) - set(bcal or [])) if c.split('::')[-1] not in strong and c not in adaptors)
+        # lossless integer widenings `T::from(x)`: vstd's contract for them is exact (r == x; measured), so a new call of one of them is
+        # not "a std call whose assumed contract may say nothing" (seeded C07_F: `i32::from(i16::MAX)` for `i16::MAX as i32`)
+        exact = set(t + '::from' for t in ('i16', 'i32', 'i64', 'i128', 'u16', 'u32', 'u64', 'u128', 'usize', 'isize'))
+        newcal = set(c for c in (set(ccal or []) - set(bcal or [])) if c.split('::')[-1] not in strong and c not in adaptors and c not in exact)
         if in_base and not f.get('kani') and bcal is not None and ccal is not None and newcal:
             msg = ('%s: the function now calls %s, which its baselined version did not; the contracts assumed for callees were chosen for the '
                    'baselined calls, so its failed obligations decide nothing' % (f['function'], ', '.join(sorted(newcal))[:200]))
